@@ -42,6 +42,9 @@ let aval_of v =
   else if v = "?" then M.ATop
   else if String.length v > 0 && v.[0] = 'i' then M.AInt (Z.of_string (String.sub v 1 (String.length v - 1)))
   else if String.length v > 0 && v.[0] = 's' then M.AStr (cstr (String.sub v 1 (String.length v - 1)))
+  (* bytes (b<hex>) and lists (l<item,item>): the model abstracts a value to its Python truth value, which for these is
+     "not empty", the same as for the text that spells them *)
+  else if String.length v > 0 && (v.[0] = 'b' || v.[0] = 'l') then M.AStr (cstr (String.sub v 1 (String.length v - 1)))
   else failwith "aval"
 let args_of l =
   List.map (fun kv -> match String.index_opt kv '=' with
